@@ -64,26 +64,17 @@ static _Bool kbq_pop_empty(void);
 #define XV_SUCCESSFUNC(v) kbq_pop_success(result_p, &(v))
 #define XV_EMPTYFUNC() kbq_pop_empty()
 
-/* ---- callees of try_push / do_pop: the real text (default), the SEQ contract stub (XV_STUB == 1: implements kbq.find_index.result /
- * kbq.segment_empty.spec, which the find_index_* and segment_empty runs prove for the real text), or an INT recording stub returning an
- * arbitrary answer (XV_STUB == 2).  committed and queue_full stay real in SEQ runs. ---- */
+/* ---- callees of try_push / do_pop: the real text (default; all SEQ runs), or - XV_STUB, for the INT validation runs - a recording stub
+ * that lets the environment run and returns an arbitrary answer within the callee's contract ---- */
 struct kbq;
-#if XV_STUB == 1
-static _Bool st_find_index_E(struct kbq* self, uint64_t start, uint64_t* idx_p, marked_value* old_p);
-static _Bool st_find_index_N(struct kbq* self, uint64_t start, uint64_t* idx_p, marked_value* old_p);
-static _Bool st_segment_empty(struct kbq* self, uint64_t h);
-#define CALL_find_index_E st_find_index_E
-#define CALL_find_index_N st_find_index_N
-#define CALL_segment_empty st_segment_empty
-#define CALL_queue_full kbq_queue_full
-#define CALL_committed kbq_committed
-#elif XV_STUB == 2
-static _Bool rec_find_index(struct kbq* self, uint64_t start, uint64_t* idx_p, marked_value* old_p);
+#ifdef XV_STUB
+static _Bool rec_find_index_E(struct kbq* self, uint64_t start, uint64_t* idx_p, uint64_t* old_p);
+static _Bool rec_find_index_N(struct kbq* self, uint64_t start, uint64_t* idx_p, uint64_t* old_p);
 static _Bool rec_queue_full(struct kbq* self, uint64_t h, uint64_t t);
 static _Bool rec_segment_empty(struct kbq* self, uint64_t h);
 static _Bool rec_committed(struct kbq* self, uint64_t t, uint64_t v, uint64_t idx);
-#define CALL_find_index_E rec_find_index
-#define CALL_find_index_N rec_find_index
+#define CALL_find_index_E rec_find_index_E
+#define CALL_find_index_N rec_find_index_N
 #define CALL_queue_full rec_queue_full
 #define CALL_segment_empty rec_segment_empty
 #define CALL_committed rec_committed
@@ -94,6 +85,13 @@ static _Bool rec_committed(struct kbq* self, uint64_t t, uint64_t v, uint64_t id
 #define CALL_segment_empty kbq_segment_empty
 #define CALL_committed kbq_committed
 #endif
+
+/* loop cut of the retry loops (INT validation runs): one arbitrary iteration; the monitors restart at the loop head */
+static void iter_reset(struct kbq* self);
+#define XV_INV_PUSH 1
+#define XV_HAVOC_PUSH iter_reset(self) /* havocs _head, _tail, every _queue[idx].value */
+#define XV_INV_POP 1
+#define XV_HAVOC_POP iter_reset(self) /* havocs _head, _tail, every _queue[idx].value */
 
 /* ---- monitors ---- */
 struct kbq* mon_q;
@@ -112,9 +110,10 @@ static long slot_of(void* addr) {
   if (off < offsetof(struct kbq, _queue)) return -1;
   return (long)((off - offsetof(struct kbq, _queue)) / sizeof(struct entry));
 }
+_Bool mon_probes_on, mon_log_on;       /* which recordings a harness needs (constants: unused recordings vanish from the formula) */
 static void mon_load(void* addr, uint64_t v, int o) {
-  long s = slot_of(addr);
-  if (s >= 0) { if (mon_nprobe < NPROBE) mon_probe[mon_nprobe] = (uint64_t)s; mon_nprobe++; }
+  if (mon_probes_on) { long s = slot_of(addr); if (s >= 0) { if (mon_nprobe < NPROBE) mon_probe[mon_nprobe] = (uint64_t)s; mon_nprobe++; } }
+  if (!mon_log_on) return;
   if (addr == (void*)&mon_q->_tail) { if (!mon_tail_loads) mon_tail_first = v; mon_tail_last = v; mon_tail_last_clock = xv_clock; mon_tail_loads++; }
   if (addr == (void*)&mon_q->_head) { if (!mon_head_loads) mon_head_first = v; mon_head_last = v; mon_head_last_clock = xv_clock; mon_head_loads++; }
 }
@@ -124,12 +123,13 @@ static void mon_store(void* addr, uint64_t v, int o) { mon_plain_store = 1; }
 
 /* kbq.advance.by_k: head/tail change only by CAS, to (index+k mod size, tag+1) or - head only, in committed - to (index, tag+1) */
 static void mon_cas(void* addr, uint64_t e, uint64_t d, _Bool ok, int o) {
-  long s = slot_of(addr);
+  long s = mon_log_on ? slot_of(addr) : -1;
   if (s >= 0) { mon_slot_cas_n++; if (ok) mon_slot_cas_ok_n++; mon_slot_cas_idx = (uint64_t)s; mon_slot_cas_e = e; mon_slot_cas_d = d; mon_slot_cas_ok = ok; mon_slot_cas_order = o; mon_slot_cas_clock = xv_clock; }
   if (addr == (void*)&mon_q->_head || addr == (void*)&mon_q->_tail) {
     uint64_t adv = MI_get(e) + mon_q->_k; if (adv >= mon_q->_queue_size) adv -= mon_q->_queue_size;
     _Bool moved = MI_get(d) == adv, bumped = MI_get(d) == MI_get(e) && addr == (void*)&mon_q->_head;
     if (!((moved || bumped) && MI_mark(d) == ((MI_mark(e) + 1) & TAG_MASK))) mon_adv_ok = 0;
+    if (!mon_log_on) return;
     if (addr == (void*)&mon_q->_tail) { mon_tail_cas_n++; mon_tail_cas_e = e; mon_tail_cas_d = d; mon_tail_cas_clock = xv_clock; }
     else { mon_head_cas_n++; mon_head_cas_e = e; mon_head_cas_d = d; mon_head_cas_ok = ok; }
   }
@@ -138,7 +138,7 @@ static void mon_cas(void* addr, uint64_t e, uint64_t d, _Bool ok, int o) {
 #endif
 }
 static void mon_reset(struct kbq* q) {
-  mon_q = q; mon_nprobe = 0; mon_adv_ok = 1; mon_plain_store = 0; mon_slot_cas_ok_n = 0; mon_slot_cas_n = 0; mon_tail_loads = 0; mon_head_loads = 0;
+  mon_q = q; mon_probes_on = 0; mon_log_on = 0; mon_nprobe = 0; mon_adv_ok = 1; mon_plain_store = 0; mon_slot_cas_ok_n = 0; mon_slot_cas_n = 0; mon_tail_loads = 0; mon_head_loads = 0;
   mon_tail_cas_n = 0; mon_head_cas_n = 0; g_released = 0; g_stored = 0; g_deleted_tracked = 0; g_deleted_other = 0; xv_threw = 0; xv_clock = 0;
 }
 
@@ -218,21 +218,20 @@ static uint64_t seg_of_pos(uint64_t pos, uint64_t k, uint64_t S) { for (uint64_t
 static uint64_t ring_off(uint64_t from, uint64_t x, uint64_t n) { return x >= from ? x - from : x + n - from; }
 /* quiescent representation invariant:  head, tail on segment boundaries; with d = segments from head to tail: slots of segments beyond d are empty,
  * segments strictly between head and tail are full; ages (ghost insertion order) are distinct and increase from segment to segment */
-static _Bool inv(struct kbq* q, uint64_t k, uint64_t S) {
+#define RING_OFF(from, x, n) ((x) >= (from) ? (x) - (from) : (x) + (n) - (from))
+static _Bool inv(struct kbq* q, uint64_t k, uint64_t S) {     /* written without branches: cheaper for symbolic execution */
   uint64_t size = k * S, hs = seg_of_pos(q->_head & XV_VAL_MASK, k, S), ts = seg_of_pos(q->_tail & XV_VAL_MASK, k, S);
-  if (!(q->_k == k && q->_queue_size == size && hs < S && ts < S)) return 0;
-  uint64_t d = ring_off(hs, ts, S);
+  _Bool ok = (q->_k == k) & (q->_queue_size == size) & (hs < S) & (ts < S);
+  uint64_t d = RING_OFF(hs, ts, S);
   for (unsigned i = 0; i < NMAX; i++) if (i < size) {
-    uint64_t j = ring_off(hs, i / k, S); _Bool nn = MV_get(q->_queue[i].value) != 0;
-    if (j > d && nn) return 0;
-    if (j > 0 && j < d && !nn) return 0;
-    if (nn && !(g_age[i] < g_next_age)) return 0;
-    for (unsigned i2 = 0; i2 < NMAX; i2++) if (i2 < size && i2 != i && nn && MV_get(q->_queue[i2].value) != 0) {
-      if (g_age[i] == g_age[i2]) return 0;
-      if (j < ring_off(hs, i2 / k, S) && !(g_age[i] < g_age[i2])) return 0;
+    uint64_t j = RING_OFF(hs, i / k, S); _Bool nn = (q->_queue[i].value & PTR_MASK) != 0;
+    ok &= !((j > d) & nn) & !((j > 0) & (j < d) & !nn) & (!nn | (g_age[i] < g_next_age));
+    for (unsigned i2 = 0; i2 < NMAX; i2++) if (i2 < size && i2 != i) {
+      _Bool both = nn & ((q->_queue[i2].value & PTR_MASK) != 0); uint64_t j2 = RING_OFF(hs, i2 / k, S);
+      ok &= !both | ((g_age[i] != g_age[i2]) & (!(j < j2) | (g_age[i] < g_age[i2])));
     }
   }
-  return 1;
+  return ok;
 }
 static unsigned count(struct kbq* q, uint64_t size) { unsigned n = 0; for (unsigned i = 0; i < NMAX; i++) if (i < size && MV_get(q->_queue[i].value) != 0) n++; return n; }
 
@@ -241,7 +240,7 @@ static unsigned count(struct kbq* q, uint64_t size) { unsigned n = 0; for (unsig
  * ===================================================================================================== */
 uint64_t in_start;
 static void find_index_case(uint64_t k, uint64_t S, _Bool empty) {
-  struct kbq q; havoc_shape(&q, k, S); mon_reset(&q);
+  struct kbq q; havoc_shape(&q, k, S); mon_reset(&q); mon_probes_on = 1;
   uint64_t size = k * S; in_start = nondet_u64(); XV_ASSUME(in_start < size);
   uint64_t idx = nondet_u64(), idx0 = idx; marked_value old = nondet_u64();
   _Bool r = empty ? kbq_find_index_E(&q, in_start, &idx, &old) : kbq_find_index_N(&q, in_start, &idx, &old);
@@ -276,35 +275,11 @@ static void segment_empty_case(uint64_t k, uint64_t S) {
   _Bool r = kbq_segment_empty(&q, h);
   _Bool all_empty = 1;
   for (unsigned j = 0; j < KMAX; j++) if (j < k && MV_get(q._queue[hs * k + j].value) != 0) all_empty = 0;
-  XV_OBL("kbq.segment_empty.spec", r == all_empty && mon_slot_cas_n == 0);
+  XV_OBL("kbq.segment_empty.spec", r == all_empty);
   if (r) XV_CANARY("segment_empty.true"); else XV_CANARY("segment_empty.false");
 }
 void h_segment_empty(void) { FOR_SHAPES(segment_empty_case(k_, S_)); }
 
-#if XV_STUB == 1
-/* SEQ contract stubs (start is a segment boundary at every call site of try_push / do_pop) */
-static _Bool st_find_index(struct kbq* self, uint64_t start, uint64_t* idx_p, marked_value* old_p, _Bool empty) {
-  uint64_t k = self->_k, size = self->_queue_size;
-  XV_OBL("kbq.find_index.result", start < size);                      /* requires */
-  _Bool r = nondet_bool();
-  if (r) {
-    uint64_t i = nondet_u64(); XV_ASSUME(i < size && i < NMAX && ring_off(start, i, size) < k && (MV_get(self->_queue[i].value) == 0) == empty);
-    *idx_p = i; *old_p = self->_queue[i].value;
-  } else {
-    for (unsigned j = 0; j < KMAX; j++) if (j < k) { uint64_t sl = start + j; if (sl >= size) sl -= size; XV_ASSUME((MV_get(self->_queue[sl].value) == 0) != empty); }
-    *old_p = nondet_u64();
-  }
-  return r;
-}
-static _Bool st_find_index_E(struct kbq* self, uint64_t start, uint64_t* idx_p, marked_value* old_p) { return st_find_index(self, start, idx_p, old_p, 1); }
-static _Bool st_find_index_N(struct kbq* self, uint64_t start, uint64_t* idx_p, marked_value* old_p) { return st_find_index(self, start, idx_p, old_p, 0); }
-static _Bool st_segment_empty(struct kbq* self, uint64_t h) {
-  uint64_t k = self->_k, size = self->_queue_size, start = MI_get(h); _Bool all_empty = 1;
-  XV_OBL("kbq.segment_empty.spec", start < size);
-  for (unsigned j = 0; j < KMAX; j++) if (j < k) { uint64_t sl = start + j; if (sl >= size) sl -= size; if (MV_get(self->_queue[sl].value) != 0) all_empty = 0; }
-  return all_empty;
-}
-#endif
 
 /* =====================================================================================================
  * SEQ refinement: one operation from ANY quiescent state satisfying inv (all callees are the real text)
@@ -345,7 +320,7 @@ void h_push(void) { FOR_SHAPES(push_case(k_, S_)); }
 
 void h_push_null(void) {
   struct kbq q, o; in_k = nondet_u64(); in_s = nondet_u64(); XV_ASSUME(in_k >= 1 && in_k <= KMAX && in_s >= 1 && in_s <= SMAX);
-  havoc_shape(&q, in_k, in_s); mon_reset(&q); snapshot(&q, &o);
+  havoc_shape(&q, in_k, in_s); mon_reset(&q); mon_log_on = 1; snapshot(&q, &o);
   _Bool r = kbq_try_push(&q, 0);
   XV_OBL("kbq.push.reject", xv_threw == XV_EXC_std__invalid_argument && g_released == 0 && mon_slot_cas_n == 0 && mon_head_cas_n == 0 && mon_tail_cas_n == 0);
   XV_CANARY("push.null");
@@ -396,13 +371,183 @@ void h_init(void) { FOR_SHAPES(init_case(k_, S_)); }
 /* C07: the destructor destroys every value still inside exactly once (values are distinct objects; any slot contents, inv not needed) */
 static void dtor_case(uint64_t k, uint64_t S) {
   struct kbq q; havoc_shape(&q, k, S); mon_reset(&q);
-  uint64_t size = k * S; unsigned n = count(&q, size); g_track = nondet_uptr(); XV_ASSUME(g_track != 0);
+  uint64_t size = k * S; g_track = nondet_uptr(); XV_ASSUME(g_track != 0);
   unsigned tracked = 0;
   for (unsigned i = 0; i < NMAX; i++) if (i < size && MV_get(q._queue[i].value) == g_track) tracked++;
   XV_ASSUME(tracked <= 1);
   kbq_dtor(&q);
-  XV_OBL("kbq.dtor.each_once", g_deleted_tracked == tracked && g_deleted_tracked + g_deleted_other == n);
-  if (tracked && n > 1) XV_CANARY("dtor.tracked");
-  if (n == 0) XV_CANARY("dtor.empty");
+  /* g_track is any object: one that is stored (in exactly one slot) is destroyed exactly once, one that is not stored is not destroyed */
+  XV_OBL("kbq.dtor.each_once", g_deleted_tracked == tracked);
+  if (tracked) XV_CANARY("dtor.tracked"); else XV_CANARY("dtor.not_stored");
 }
 void h_dtor(void) { FOR_SHAPES(dtor_case(k_, S_)); }
+
+/* =====================================================================================================
+ * INT: committed() while other threads keep working  (kbq.push.commit, kbq.committed.withdrawn)
+ *
+ * Ghost view of the other threads (the rely, stated in unit.py): logical positions e_GH <= e_GT (multiples of k, tail at most S-1 segments
+ * ahead), physical index = logical mod size; tags only grow and change whenever the index moves.  e_P/e_idx/e_item: the segment, slot and
+ * word the pusher has inserted.  e_taken: some consumer has replaced the word.  e_can_adv: a head advance that scanned the head segment
+ * BEFORE the item was inserted is still pending and succeeds if the head word is unchanged (this is the race committed() exists for).
+ * Head leaves a segment only if its scan found the segment empty: while the item is in its slot, head may leave segment e_P only through such
+ * a pending stale advance.  One environment step is the transitive closure of these moves (any number of operations of other threads).
+ * ===================================================================================================== */
+#ifdef XV_INT
+_Bool e_on, e_arbitrary, e_taken, e_withdrawn, e_can_adv; uint64_t e_GH, e_GT, e_htag, e_ttag, e_P, e_idx, e_k, e_S; marked_value e_item; struct kbq* e_q;
+#define E_BOUND (((uint64_t)1) << 40)
+static void env_own_cas(void* addr, uint64_t e, uint64_t d, _Bool ok) {
+  if (!e_on || e_arbitrary || !ok) return;
+  if (addr == (void*)&e_q->_head) { e_htag = MI_mark(d); if (!e_taken && !e_withdrawn) e_can_adv = 0; }   /* the head word changed: pending stale advances now fail */
+  if (addr == (void*)&e_q->_queue[e_idx].value) e_withdrawn = 1;                                            /* own CAS removed the item again */
+}
+void xv_env(void) {
+  if (!e_on) return;
+  struct kbq* q = e_q;
+  if (e_arbitrary) {            /* validation runs: no rely beyond "head and tail hold indices inside the array" */
+    q->_head = nondet_u64(); q->_tail = nondet_u64(); XV_ASSUME(MI_get(q->_head) < q->_queue_size && MI_get(q->_tail) < q->_queue_size);
+    for (unsigned i = 0; i < NMAX; i++) q->_queue[i].value = nondet_u64();
+    return;
+  }
+  uint64_t k = e_k, size = e_k * e_S;
+  uint64_t nGH = nondet_u64(), nGT = nondet_u64(), nht = nondet_u64(), ntt = nondet_u64(); _Bool ntaken = nondet_bool(), ncan = nondet_bool();
+  XV_ASSUME(nGH >= e_GH && nGT >= e_GT && nGH <= nGT && nGT - nGH <= size - k && nGT < E_BOUND && nGH % k == 0 && nGT % k == 0);
+  XV_ASSUME(nht >= e_htag && ntt >= e_ttag && nht < E_BOUND && ntt < E_BOUND && (nGH == e_GH || nht > e_htag) && (nGT == e_GT || ntt > e_ttag));
+  _Bool present = !e_taken && !e_withdrawn;
+  XV_ASSUME(!e_taken || ntaken);
+  uint64_t off = RING_OFF(e_GH % size, e_P, size), L0 = e_GH + off;            /* first logical position >= e_GH whose segment is e_P */
+  if (present && !ntaken) {
+    XV_ASSUME(!(L0 < nGH) || (off == 0 && e_can_adv));                          /* head leaves e_P only by a stale pending advance */
+    XV_ASSUME(!(L0 + size < nGH));                                              /* ... and at most once */
+    _Bool hchanged = nGH != e_GH || nht != e_htag;
+    XV_ASSUME(ncan == (hchanged ? 0 : e_can_adv));
+  }
+  e_GH = nGH; e_GT = nGT; e_htag = nht; e_ttag = ntt; e_can_adv = ncan;
+  q->_head = MI_make(nGH % size, nht); q->_tail = MI_make(nGT % size, ntt);
+  for (unsigned i = 0; i < NMAX; i++) if (i != e_idx) q->_queue[i].value = nondet_u64();
+  if (present && ntaken) { marked_value nv = nondet_u64(); XV_ASSUME(nv != e_item); q->_queue[e_idx].value = nv; e_taken = 1; }
+  else if (!present) { marked_value nv = nondet_u64(); XV_ASSUME(nv != e_item); q->_queue[e_idx].value = nv; }      /* marks only grow: the word does not come back */
+}
+static void committed_case(uint64_t k, uint64_t S) {
+  struct kbq q; uint64_t size = k * S; q._k = k; q._queue_size = size; mon_reset(&q);
+  e_q = &q; e_k = k; e_S = S; e_arbitrary = 0; e_withdrawn = 0;
+  e_GH = nondet_u64(); e_GT = nondet_u64(); e_htag = nondet_u64(); e_ttag = nondet_u64(); e_taken = nondet_bool(); e_can_adv = nondet_bool();
+  XV_ASSUME(e_GH <= e_GT && e_GT - e_GH <= size - k && e_GT < E_BOUND && e_GH % k == 0 && e_GT % k == 0 && e_htag < E_BOUND && e_ttag < E_BOUND);
+  q._head = MI_make(e_GH % size, e_htag); q._tail = MI_make(e_GT % size, e_ttag);
+  uint64_t ps = nondet_u64(), po = nondet_u64(), totag = nondet_u64(), v = nondet_u64(), m = nondet_u64();
+  XV_ASSUME(ps < S && po < k && totag <= TAG_MASK && v != 0 && v <= PTR_MASK && m <= 0xffff);
+  e_P = ps * k; e_idx = e_P + po; e_item = MV_make(v, m);
+  for (unsigned i = 0; i < NMAX; i++) q._queue[i].value = nondet_u64();
+  if (e_taken) XV_ASSUME(q._queue[e_idx].value != e_item); else q._queue[e_idx].value = e_item;
+  marked_idx tail_old = MI_make(e_P, totag);
+  e_on = 1;
+  _Bool r = kbq_committed(&q, tail_old, e_item, e_idx);
+  e_on = 0;
+  uint64_t h = e_GH % size, t = e_GT % size;
+  XV_OBL("kbq.committed.withdrawn", !(e_taken && e_withdrawn));
+  if (r) {
+    /* true only if a consumer took the value, or the item is in its slot, its segment is inside the circular region [head, tail], and no head
+     * advance that missed the item can still succeed */
+    _Bool in_region = RING_OFF(h, e_P, size) <= RING_OFF(h, t, size);
+    XV_OBL("kbq.push.commit", e_taken || (!e_withdrawn && q._queue[e_idx].value == e_item && in_region && !(e_P == h && e_can_adv)));
+    if (e_taken) XV_CANARY("committed.taken"); else if (e_P == h) XV_CANARY("committed.at_head"); else XV_CANARY("committed.inside");
+  } else {
+    /* false only after withdrawing the item itself: it was not delivered to anybody */
+    XV_OBL("kbq.committed.withdrawn", e_withdrawn && !e_taken && q._queue[e_idx].value == MV_make(0, m + 1));
+    XV_CANARY("committed.withdrawn");
+  }
+  XV_OBL("kbq.advance.by_k", mon_adv_ok && !mon_plain_store);
+}
+#endif
+void h_committed_int(void) {
+#ifdef XV_INT
+  FOR_SHAPES(committed_case(k_, S_));
+#endif
+}
+
+/* =====================================================================================================
+ * INT: try_push / do_pop validate what they read (arbitrary environment, callees answer arbitrarily within their contracts, loop cut)
+ * ===================================================================================================== */
+#if defined(XV_INT) && defined(XV_STUB)
+unsigned rec_fi_n, rec_qf_n, rec_se_n, rec_cm_n; uint64_t rec_fi_start, rec_fi_idx, rec_fi_old, rec_fi_clock, rec_qf_h, rec_qf_t, rec_qf_clock, rec_se_h, rec_se_clock, rec_cm_t, rec_cm_v, rec_cm_idx, rec_cm_clock;
+_Bool rec_fi_ret, rec_qf_ret, rec_se_ret, rec_cm_ret;
+static _Bool rec_find_index(struct kbq* self, uint64_t start, uint64_t* idx_p, uint64_t* old_p, _Bool empty) {
+  xv_env();
+  rec_fi_n++; rec_fi_start = start; rec_fi_ret = nondet_bool(); rec_fi_idx = nondet_u64(); rec_fi_old = nondet_u64(); rec_fi_clock = ++xv_clock;
+  XV_ASSUME(rec_fi_idx < NMAX);
+  if (rec_fi_ret) { XV_ASSUME((MV_get(rec_fi_old) == 0) == empty); *idx_p = rec_fi_idx; }
+  *old_p = rec_fi_old;
+  xv_env();
+  return rec_fi_ret;
+}
+static _Bool rec_find_index_E(struct kbq* self, uint64_t start, uint64_t* idx_p, uint64_t* old_p) { return rec_find_index(self, start, idx_p, old_p, 1); }
+static _Bool rec_find_index_N(struct kbq* self, uint64_t start, uint64_t* idx_p, uint64_t* old_p) { return rec_find_index(self, start, idx_p, old_p, 0); }
+static _Bool rec_queue_full(struct kbq* self, uint64_t h, uint64_t t) { xv_env(); rec_qf_n++; rec_qf_h = h; rec_qf_t = t; rec_qf_ret = nondet_bool(); rec_qf_clock = ++xv_clock; return rec_qf_ret; }
+static _Bool rec_segment_empty(struct kbq* self, uint64_t h) { xv_env(); rec_se_n++; rec_se_h = h; rec_se_ret = nondet_bool(); rec_se_clock = ++xv_clock; return rec_se_ret; }
+static _Bool rec_committed(struct kbq* self, uint64_t t, uint64_t v, uint64_t idx) { xv_env(); rec_cm_n++; rec_cm_t = t; rec_cm_v = v; rec_cm_idx = idx; rec_cm_ret = nondet_bool(); rec_cm_clock = ++xv_clock; return rec_cm_ret; }
+#endif
+static void iter_reset(struct kbq* self) {
+#if defined(XV_INT) && defined(XV_STUB)
+  self->_head = nondet_u64(); self->_tail = nondet_u64(); XV_ASSUME(MI_get(self->_head) < self->_queue_size && MI_get(self->_tail) < self->_queue_size);
+  for (unsigned i = 0; i < NMAX; i++) self->_queue[i].value = nondet_u64();
+  uint64_t k = self->_k, size = self->_queue_size; mon_reset(self); mon_log_on = 1; self->_k = k; self->_queue_size = size;
+  rec_fi_n = 0; rec_qf_n = 0; rec_se_n = 0; rec_cm_n = 0;
+#endif
+}
+static void setup_int(struct kbq* q) {
+#if defined(XV_INT) && defined(XV_STUB)
+  in_k = nondet_u64(); in_s = nondet_u64(); XV_ASSUME(in_k >= 1 && in_k <= KMAX && in_s >= 1 && in_s <= SMAX);
+  q->_k = in_k; q->_queue_size = in_k * in_s; iter_reset(q); e_q = q; e_arbitrary = 1; e_on = 1;
+#endif
+}
+void h_push_int(void) {
+#if defined(XV_INT) && defined(XV_STUB)
+  struct kbq q; setup_int(&q);
+  in_value = nondet_u64(); XV_ASSUME(in_value != 0 && in_value <= PTR_MASK);
+  _Bool r = kbq_try_push_cut(&q, in_value);
+  e_on = 0;
+  /* every path: tail is read first, then head; the scan starts at the index of the tail word read */
+  XV_OBL("kbq.push.validate", rec_fi_n == 1 && rec_fi_start == MI_get(mon_tail_first));
+  if (r) {
+    marked_value nv = MV_make(in_value, MV_mark(rec_fi_old) + 1);
+    XV_OBL("kbq.push.validate", rec_fi_ret && mon_tail_loads == 2 && mon_tail_last == mon_tail_first && mon_tail_last_clock > rec_fi_clock);
+    XV_OBL("kbq.push.validate", mon_slot_cas_n == 1 && mon_slot_cas_ok && mon_slot_cas_idx == rec_fi_idx && mon_slot_cas_e == rec_fi_old && mon_slot_cas_d == nv && mon_slot_cas_clock > mon_tail_last_clock);
+    XV_OBL("kbq.push.validate", rec_cm_n == 1 && rec_cm_ret && rec_cm_t == mon_tail_first && rec_cm_v == nv && rec_cm_idx == rec_fi_idx && rec_cm_clock > mon_slot_cas_clock);
+    XV_OBL("kbq.push.validate", g_released == 1 && mon_head_cas_n == 0 && mon_tail_cas_n == 0);
+    XV_OBL("kbq.sync.slot_release", XV_IS_RELEASE(mon_slot_cas_order));
+    XV_CANARY("push_int.true");
+  } else {
+    /* "full": no empty slot seen in the tail segment, tail unchanged over the scan, queue_full and a non-empty head segment observed for the head word read, head still that word; value stays with the caller */
+    XV_OBL("kbq.push.validate", !rec_fi_ret && mon_tail_loads == 2 && mon_tail_last == mon_tail_first && mon_tail_last_clock > rec_fi_clock);
+    XV_OBL("kbq.push.validate", rec_qf_n == 1 && rec_qf_ret && rec_qf_h == mon_head_first && rec_qf_t == mon_tail_first && rec_se_n == 1 && !rec_se_ret && rec_se_h == mon_head_first);
+    XV_OBL("kbq.push.validate", mon_head_loads == 2 && mon_head_last == mon_head_first && mon_head_last_clock > rec_se_clock);
+    XV_OBL("kbq.push.validate", g_released == 0 && mon_slot_cas_n == 0 && mon_head_cas_n == 0 && mon_tail_cas_n == 0 && rec_cm_n == 0);
+    XV_CANARY("push_int.false");
+  }
+  XV_OBL("kbq.advance.by_k", mon_adv_ok && !mon_plain_store);
+#endif
+}
+void h_pop_int(void) {
+#if defined(XV_INT) && defined(XV_STUB)
+  struct kbq q; setup_int(&q);
+  in_res0 = nondet_uptr(); value_type res = in_res0;
+  _Bool r = kbq_do_pop_cut(&q, &res);
+  e_on = 0;
+  XV_OBL("kbq.pop.validate", rec_fi_n == 1 && rec_fi_start == MI_get(mon_head_first));
+  if (r) {
+    XV_OBL("kbq.pop.validate", rec_fi_ret && mon_head_loads == 2 && mon_head_last == mon_head_first && mon_head_last_clock > rec_fi_clock);
+    XV_OBL("kbq.pop.validate", mon_slot_cas_n == 1 && mon_slot_cas_ok && mon_slot_cas_idx == rec_fi_idx && mon_slot_cas_e == rec_fi_old && mon_slot_cas_d == MV_make(0, MV_mark(rec_fi_old) + 1) && mon_slot_cas_clock > mon_head_last_clock);
+    XV_OBL("kbq.pop.validate", res == MV_get(rec_fi_old) && g_stored == 1 && mon_head_cas_n == 0);
+    /* a consumer that takes from the segment tail still points to first moves tail on: producers must not refill a segment behind head */
+    if (MI_get(mon_head_first) == MI_get(mon_tail_first)) { XV_OBL("kbq.pop.validate", mon_tail_cas_n == 1 && mon_tail_cas_e == mon_tail_first && mon_tail_cas_clock < mon_slot_cas_clock); XV_CANARY("pop_int.moved_tail"); }
+    else XV_OBL("kbq.pop.validate", mon_tail_cas_n == 0);
+    XV_OBL("kbq.sync.slot_release", XV_IS_RELEASE(mon_slot_cas_order));
+    XV_CANARY("pop_int.true");
+  } else {
+    XV_OBL("kbq.pop.validate", !rec_fi_ret && mon_head_loads == 2 && mon_head_last == mon_head_first && mon_head_last_clock > rec_fi_clock);
+    XV_OBL("kbq.pop.validate", MI_get(mon_head_first) == MI_get(mon_tail_first) && mon_tail_loads == 2 && mon_tail_last == mon_tail_first && mon_tail_last_clock > mon_head_last_clock);
+    XV_OBL("kbq.pop.validate", res == in_res0 && g_stored == 0 && mon_slot_cas_n == 0 && mon_head_cas_n == 0 && mon_tail_cas_n == 0);
+    XV_CANARY("pop_int.empty");
+  }
+  XV_OBL("kbq.advance.by_k", mon_adv_ok && !mon_plain_store);
+#endif
+}
